@@ -57,6 +57,10 @@ static void vf_load (const char* name, void* dst, size_t size)
 #define VF_POST(c, msg) VF_ASSERT (c, msg)
 #define VF_END() do { } while (0)
 #define VF_CONTRACT(...)
+/* contract clauses vanish natively: the re-declarations become plain prototypes */
+#define __CPROVER_requires(...)
+#define __CPROVER_ensures(...)
+#define __CPROVER_assigns(...)
 void VF_ENTRY (void);
 int main (int argc, char** argv)
 {
